@@ -177,4 +177,23 @@ theorem swapEvalOp_setSf {cfg : Cfg} {d : Dialect} {s s' : MState} {c : Nat} (x 
     rw [M_bind_eq e3]
     exact ⟨e4, by rw [f4]; show s3.softforkStack = _; rw [f3, f2, f1]⟩
 
+/-! ### softfork stacks related guard by guard -/
+
+inductive GuardsRel (R : SoftforkGuard → SoftforkGuard → Prop) : List SoftforkGuard → List SoftforkGuard → Prop
+  | nil : GuardsRel R [] []
+  | cons {g g' : SoftforkGuard} {l l' : List SoftforkGuard} : R g g' → GuardsRel R l l' → GuardsRel R (g :: l) (g' :: l')
+
+theorem GuardsRel.length_eq {R : SoftforkGuard → SoftforkGuard → Prop} {l l' : List SoftforkGuard}
+    (h : GuardsRel R l l') : l.length = l'.length := by
+  induction h with
+  | nil => rfl
+  | cons _ _ ih => simp [ih]
+
+theorem GuardsRel.inv {R : SoftforkGuard → SoftforkGuard → Prop} {l l' : List SoftforkGuard}
+    (h : GuardsRel R l l') :
+    (l = [] ∧ l' = []) ∨ ∃ g g' r r', l = g :: r ∧ l' = g' :: r' ∧ R g g' ∧ GuardsRel R r r' := by
+  cases h with
+  | nil => exact Or.inl ⟨rfl, rfl⟩
+  | cons h1 h2 => exact Or.inr ⟨_, _, _, _, rfl, rfl, h1, h2⟩
+
 end Clvm.Interp
